@@ -1155,6 +1155,29 @@ def stepWire (d : DState) (toks : List String) (impl : String) : DState × Verdi
         | _ => { sentResp := none, sentState := none, back := none }
       out19 d model (retryMonitor rs state obs)
     | _, _ => bad d
+  | ["ann.rt", compat, dh, ih, oh, rh, title] =>
+    -- `json.Marshal(ToolAnnotations{…})` under the default encoding (0) or MCPGODEBUG=hintomitempty=1 (1), then
+    -- `json.Unmarshal`: `<J> | <d> <i> <o> <r> s<title>` (hints: t / f / -)
+    let pOB : String → Option (Option Bool) | "-" => some none | "t" => some (some true) | "f" => some (some false) | _ => none
+    let pB : String → Option Bool | "t" => some true | "f" => some false | _ => none
+    let shOB : Option Bool → String | none => "-" | some true => "t" | some false => "f"
+    let shA (a : ToolAnn) : String := s!"{shOB a.destructive} {shOB (some a.idempotent)} {shOB a.openWorld} {shOB (some a.readOnly)} s{hexB a.title}"
+    match pOB dh, pB ih, pOB oh, pB rh, pStr [title] with
+    | some d', some i', some o', some r', some (t', []) =>
+      let a : ToolAnn := ⟨d', i', o', r', t'⟩
+      let c := compat == "1"
+      let model := showJ (encodeAnn c a) ++ " | " ++ (match decodeAnn (encodeAnn c a) with | .ok b => shA b | .error _ => "err")
+      let obs : AnnObs := match impl.splitOn " | " with
+        | [x, y] =>
+          { written := (match pJ (words x) with | some (v, []) => some v | _ => none),
+            back := (match words y with
+              | [d2, i2, o2, r2, t2] => (match pOB d2, pB i2, pOB o2, pB r2, pStr [t2] with
+                | some d2, some i2, some o2, some r2, some (t2, []) => some ⟨d2, i2, o2, r2, t2⟩
+                | _, _, _, _, _ => none)
+              | _ => none) }
+        | _ => { written := none, back := none }
+      out19 d model (annMonitor c a obs)
+    | _, _, _, _, _ => bad d
   | ["ref.rt", t, n, u] =>
     -- `json.Marshal(&CompleteReference{…})`, then `json.Unmarshal` of the text: `refused <class>` / `ok <J> | ok s s s` / `ok <J> | err <class>`
     match pStr [t], pStr [n], pStr [u] with
